@@ -3,6 +3,11 @@ import json, sys
 pid, wt = sys.argv[1], sys.argv[2]
 wave = int(sys.argv[3]) if len(sys.argv) > 3 else 1
 first = 2 * wave - 1
+import glob as _g, os as _o, re as _r
+_ex = [int(_r.search(r'-m(\d+)$', d).group(1)) for d in _g.glob('/verif/seeded/%s-m*' % pid)]
+if wave > 1 and _ex:
+    first = max(first, max(_ex) + 1)
+N = int(_o.environ.get('SEED_COUNT', '2'))
 avoid = ""
 if wave > 1:
     import glob, os
@@ -19,6 +24,8 @@ for l in open('/verif/properties.jsonl'):
     if p['id'] == pid:
         break
 second = first + 1
+idx = ', '.join(str(first + i) for i in range(N))
+WORD = {2: 'TWO', 3: 'THREE', 4: 'FOUR'}[N]
 print(f"""You are helping to evaluate a test/verification setup for the open-source project cherab-core (plasma spectroscopy modelling on Raysect; Cython + Python) by seeding realistic bugs.
 
 Your private scratch git worktree of the repository is {wt} (already built: the compiled .so files are in place). Work ONLY inside that directory. Do not read or touch /verif or /repo.
@@ -29,11 +36,11 @@ THE PROPERTY the project is supposed to guarantee:
   Holds for: {p['quantifier']['text']}
   Code areas it is anchored in: {', '.join(p['anchors']['files'])}
 
-YOUR TASK: produce TWO independent source changes (different mechanisms, different files or functions if possible) to cherab-core that each BREAK this property, where each change:
+YOUR TASK: produce {WORD} independent source changes (different mechanisms, different files or functions if possible) to cherab-core that each BREAK this property, where each change:
   (a) still compiles: after editing a .pyx/.pxd run `cd {wt} && /venv/bin/python setup.py build_ext -j8 --inplace` (only edited modules rebuild; .py edits need no build);
   (b) still passes the repository's existing test suite: `cd {wt} && /venv/bin/python wt_python.py pytest cherab` must give the same result as without your change (579 tests pass on the unchanged tree; run the relevant test files first, the whole suite once at the end; `wt_python.py` makes `import cherab` resolve to this worktree instead of the installed copy — always run python code through it: `/venv/bin/python wt_python.py yourscript.py`);
 {avoid}  (c) looks like a plausible slip or "optimisation" a developer could make, and needs something SPECIFIC to manifest: a particular multi-step sequence of operations, an unusual but legal input (edge of a range, special value, particular combination of options), state left over from an earlier call, or two cooperating sites that each look fine alone. NOT something the first ordinary use would expose, and not a crash on every call.
-For each change i in ({first}, {second}) write into {wt}/_seed/m<i>/ :
+For each change i in ({idx}) write into {wt}/_seed/m<i>/ :
   - patch.diff : `git diff` of the change against the worktree's HEAD (only source files, not build artefacts);
   - demo.py : a small stand-alone program (run as `/venv/bin/python wt_python.py _seed/m<i>/demo.py`) that exits 0 on the unchanged code and exits non-zero (assertion failure) with your change applied, demonstrating the property violation through the public API;
   - meta.json : {{"property": "{pid}", "summary": "...what was changed...", "needs_to_manifest": "...the specific input/sequence/state...", "files": [...], "ran": ["commands you ran and their outcome: build, relevant tests, full suite, demo with/without"]}}
